@@ -10,6 +10,8 @@
 (*   pd    : the same pipeline for pilot descriptions                      *)
 (*   slots : raw -> Build -> ToNew -> ToOld   and   Build -> ToOld         *)
 (*   func  : raw -> Encode -> Decode -> Call                               *)
+(*   fseq  : raw -> EncodeAll -> DecodeAll -> CallAll  (short-lived        *)
+(*           callables encoded one after the other, decoded afterwards)    *)
 (* Every initial state is one input; TLC enumerates the inputs and prints  *)
 (* each of them (tag "IN"); the rig replays the pipeline of every printed  *)
 (* input on the real classes and the monitor DescrTrace compares.          *)
@@ -20,10 +22,11 @@
 (***************************************************************************)
 EXTENDS DescrOps, TLC, Json
 
-CONSTANTS Kinds,      \* subset of {"td", "pd", "slots", "func"}: what Init enumerates
+CONSTANTS Kinds,      \* subset of {"td", "pd", "slots", "func", "fseq"}: what Init enumerates
           TDFams,     \* families of task descriptions, see FamInputs
           SlotFams,   \* families of slot lists, see SlotInputs
           Funcs, ArgIds, KwIds, Apis,    \* catalogue of function payloads
+          ShortFuncs, SeqLens,           \* short-lived callables, lengths of sequences
           Emit        \* print every input (TRUE for the enumeration run)
 
 VARIABLES kind, phase, inp, val, keep
@@ -51,8 +54,14 @@ SlotsOf(F) ==
              n \in F.nodes, v \in F.versions, b \in F.boxes, cf \in F.cfmts, gf \in F.gfmts,
              ci \in F.coreidx, gi \in F.gpuidx, o \in F.occs, l \in F.lfs} : SlotValid(s)}
 
+\* F.pool holds old and new format slots: every list over it of the lengths
+\* F.lens, i.e. each entry independently old or new, in every order
 SlotInputs(F) == {<<>>} \cup {<<s>> : s \in SlotsOf(F)}
                  \cup {<<s, t>> : s \in SlotsOf(F), t \in F.second}
+                 \cup UNION {[1 .. n -> F.pool] : n \in F.lens}
+
+FSeqCases == {[api |-> p, fs |-> s, a |-> "one"] :
+                p \in Apis, s \in UNION {[1 .. n -> ShortFuncs] : n \in SeqLens}}
 
 FuncCases == [api : Apis, f : Funcs, a : ArgIds, k : KwIds]
 
@@ -74,6 +83,9 @@ Init ==
      \/ /\ "func" \in Kinds /\ kind = "func"
         /\ inp \in FuncCases
         /\ Out("func", inp)
+     \/ /\ "fseq" \in Kinds /\ kind = "fseq"
+        /\ inp \in FSeqCases
+        /\ Out("fseq", inp)
   /\ val = inp /\ keep = inp
 
 (* ---- task descriptions --------------------------------------------------- *)
@@ -134,15 +146,23 @@ FnDecode == /\ kind = "func" /\ phase = "encoded"
 FnCall   == /\ kind = "func" /\ phase = "decoded"
             /\ phase' = "called" /\ val' = CallRes(val) /\ UNCHANGED <<kind, inp, keep>>
 
+FsEncode == /\ kind = "fseq" /\ phase = "raw"
+            /\ phase' = "encoded" /\ val' = EncodeSeq(val) /\ UNCHANGED <<kind, inp, keep>>
+FsDecode == /\ kind = "fseq" /\ phase = "encoded"
+            /\ phase' = "decoded" /\ val' = DecodeSeq(val) /\ UNCHANGED <<kind, inp, keep>>
+FsCall   == /\ kind = "fseq" /\ phase = "decoded"
+            /\ phase' = "called" /\ UNCHANGED <<kind, inp, val, keep>>
+
 Next == \/ TDRoundTrip \/ TDVerify \/ TDVerifyAgain
         \/ PDRoundTrip \/ PDVerifyAct
         \/ SlBuild \/ SlToNew \/ SlToOld
         \/ FnEncode \/ FnDecode \/ FnCall
+        \/ FsEncode \/ FsDecode \/ FsCall
 
 Spec == Init /\ [][Next]_vars
 
 (* ---- properties ---------------------------------------------------------- *)
-TypeOK == /\ kind \in {"td", "pd", "slots", "func"}
+TypeOK == /\ kind \in {"td", "pd", "slots", "func", "fseq"}
           /\ phase \in {"raw", "raw_rt", "verified", "verified2", "rejected", "rejected2", "back",
                         "built", "new", "old", "oldd", "encoded", "decoded", "called"}
           /\ kind = "td" => DOMAIN val = Attrs /\ DOMAIN inp = Attrs
@@ -165,9 +185,12 @@ InvLosesNothing == kind = "td" /\ phase \in Verified => KeepsRest(inp, val)
 InvDictRoundTrip == kind \in {"td", "pd"} /\ phase \in {"raw_rt", "back"} => val = keep
 \* node name / index and the core and gpu index lists survive ToNew, ToOld, ToOld o ToNew
 InvSlotsKeep == kind = "slots" /\ phase \in {"built", "new", "old", "oldd"} => SlotsKeepOp(inp, val)
+\* ... and every entry of the result is in the target format
 InvSlotsFormat == kind = "slots" =>
-                    /\ phase = "new" => \A i \in 1 .. Len(val) : IsNew(val[i])
-                    /\ phase \in {"old", "oldd"} => \A i \in 1 .. Len(val) : ~IsNew(val[i])
+                    /\ phase = "new" => AllNew(val)
+                    /\ phase \in {"old", "oldd"} => AllOld(val)
 \* Decode(Encode(f, a, k))(...) = f(a, k): identity oracle only
 InvFuncSame == kind = "func" /\ phase = "called" => val = Oracle(inp)
+\* callables encoded one after the other each decode to themselves
+InvSeqSame  == kind = "fseq" /\ phase = "called" => val = SeqOracle(inp)
 =============================================================================
